@@ -234,6 +234,8 @@ def check_lp1b(func_node, loop, accumulators):
         root = views.get(base.id, base.id if base.id in outer else None)
         if root is None or root in accumulators:
             continue
+        if _is_builder(func_node, root, loop):
+            continue      # a dict/list created empty before the loop and filled by it
         if isinstance(tgt, ast.Name) and tgt.id not in views:
             # plain `name op= v` on an outer name: scalar accumulation (count += 1)
             continue
@@ -251,6 +253,19 @@ def check_lp1b(func_node, loop, accumulators):
         if (names_in(val) & variant) or index_variant:
             out.append((root, st))
     return out
+
+
+def _is_builder(func_node, name, loop):
+    for n in ast.walk(func_node):
+        if isinstance(n, ast.Assign) and n.lineno < loop.lineno and any(
+                isinstance(t, ast.Name) and t.id == name for t in n.targets):
+            v = n.value
+            if isinstance(v, (ast.Dict, ast.List, ast.Set)):
+                return True
+            if isinstance(v, ast.Call) and unparse(v.func, 0).split('.')[-1] in (
+                    'dict', 'list', 'defaultdict', 'OrderedDict', 'set'):
+                return True
+    return False
 
 
 def function_accumulators(func_node):
